@@ -438,6 +438,34 @@ def _admission(ctx, run):
         else:
             run.violation("RF-DOM", key, "%s no longer validates the sampling parameters" % name, "%s:%d" % (f.file, f.line))
     run.floor("validated admission functions", n, 2)
+    # every installation of caller-supplied sampling parameters (`rd->sampling = *sp`) is dominated by a
+    # successful _vbi_sampling_par_valid_log (sp): the decode loop addresses image rows from count[], the
+    # interlace flag and bytes_per_line without further checks (the per-service admission looks at rates
+    # and line numbers only, not at the layout)
+    m = 0
+    for f in P.funcs:
+        if f.file != RD:
+            continue
+        for bid, i in flow.all_events(f):
+            for lhs, var, op, rhs in flow.stores(f, i):
+                if lhs is None or op != "=" or rhs is None:
+                    continue
+                l = f.exprs[ex.skip(f, lhs)]
+                if not (l["k"] == "mem" and l["member"] == "sampling" and l.get("in") == "_vbi3_raw_decoder"):
+                    continue
+                m += 1
+                run.touch(f)
+                key = "RF-DOM:%s:sampling-installed-validated" % f.name
+                ok = any(a.call_cmp("_vbi_sampling_par_valid_log", "!=", 0) for a in atoms.atoms_at(f, i))
+                if ok:
+                    run.holds("RF-DOM", key, "`%s` is dominated by a successful _vbi_sampling_par_valid_log()" % ex.pretty(f, i)[:40],
+                              ex.loc(f, i))
+                else:
+                    run.violation("RF-DOM", key, "%s() installs caller-supplied sampling parameters (`%s`) without a dominating "
+                                  "successful _vbi_sampling_par_valid_log(): an inadmissible line layout (interlaced with unequal "
+                                  "field counts, bytes_per_line not a multiple of the pixel size ...) reaches the decode loop, which "
+                                  "then reads rows behind the raw image" % (f.name, ex.pretty(f, i)[:40]), ex.loc(f, i))
+    run.floor("installations of sampling parameters in the raw decoder", m, 2)
 
 
 def _wide_products(ctx, run):
